@@ -1186,6 +1186,18 @@ class Machine:
                         parts_ = list(reversed(parts_))
                     return Iter(parts_)
                 return UNKNOWN
+            if end in ("find", "rfind") and len(a) > 1:
+                # (byte offsets, as in Rust)
+                pat = chr(a[1]) if isinstance(a[1], int) and not isinstance(a[1], bool) else a[1]
+                if isinstance(pat, str) and pat:
+                    i = a0.find(pat) if end == "find" else a0.rfind(pat)
+                    return some(len(a0[:i].encode("utf-8"))) if i >= 0 else none()
+                return UNKNOWN
+            if end in ("matches", "rmatches") and len(a) > 1:
+                pat = chr(a[1]) if isinstance(a[1], int) and not isinstance(a[1], bool) else a[1]
+                if isinstance(pat, str) and pat:
+                    return Iter([pat] * a0.count(pat))
+                return UNKNOWN
             if end == "split_whitespace":
                 return Iter(a0.split())
             if end == "chars":
@@ -1452,6 +1464,22 @@ class Machine:
                     return none()
                 return some(ListSlot(a0, a[1])) if end == "get_mut" else some(a0[a[1]])
             return UNKNOWN
+        if m("std::ops::Index>::index", "std::ops::Index::index") and isinstance(a0, str) and len(a) == 2 and isinstance(a[1], Enum) and \
+                getattr(a[1], "name", None) in ("Range", "RangeFrom", "RangeTo", "RangeFull", "RangeInclusive", "RangeToInclusive") and \
+                all(isinstance(x, int) and not isinstance(x, bool) for x in a[1].fields):
+            # text[lo..hi] with byte offsets: a panic when out of range, out of order or not on a character boundary
+            bs_ = a0.encode("utf-8")
+            fs_, n_ = a[1].fields, len(bs_)
+            lo_, hi_ = {"Range": lambda: (fs_[0], fs_[1]), "RangeFrom": lambda: (fs_[0], n_), "RangeTo": lambda: (0, fs_[0]),
+                        "RangeFull": lambda: (0, n_), "RangeInclusive": lambda: (fs_[0], fs_[1] + 1),
+                        "RangeToInclusive": lambda: (0, fs_[0] + 1)}[a[1].name]()
+            try:
+                if not (0 <= lo_ <= hi_ <= n_):
+                    raise ValueError
+                return bs_[lo_:hi_].decode("utf-8") if (bs_[:lo_].decode("utf-8") is not None and bs_[hi_:].decode("utf-8") is not None) else UNKNOWN
+            except (ValueError, UnicodeDecodeError):
+                self.events.append(("panic", "string slice out of range or not on a character boundary", g.name if g else "?"))
+                return UNKNOWN
         if m("std::ops::Index>::index", "std::ops::IndexMut>::index_mut", "std::ops::Index::index", "std::ops::IndexMut::index_mut"):
             if isinstance(a0, Map) and len(a) == 2:
                 e_ = a0.d.get(key_of(a[1]))
@@ -2177,6 +2205,12 @@ class Machine:
                     raise Stuck("%s over an element that is not a known number" % end)
                 acc = acc + x if end == "sum" else acc * x
             return (ok(acc) if wrap == "Result" else some(acc)) if wrap else acc
+        if end in ("min", "max") and len(a) == 1:
+            # of known integers (Iterator::min / max hand back the first / the last of several equal extremes: the same number)
+            xs = [x for x in drain(a0)]
+            if not all(isinstance(x, int) and not isinstance(x, bool) for x in xs):
+                raise Stuck("%s over an element that is not a known integer" % end)
+            return some(min(xs) if end == "min" else max(xs)) if xs else none()
         if end == "count":
             return len(a0.rest())
         if end == "last":
@@ -2383,4 +2417,4 @@ def _default_of_type(ty):
         return Map()
     return UNKNOWN
 ITER_METHODS = {"tuple_windows", "tuples", "map", "filter", "filter_map", "map_while", "take_while", "flatten", "flat_map", "all_equal", "enumerate", "rev", "skip", "take", "zip", "chain", "collect", "count", "last",
-                "for_each", "fold", "rfold", "sum", "product", "try_fold", "try_for_each", "any", "all", "find", "position", "find_map", "next", "next_back", "nth", "nth_back"}
+                "for_each", "fold", "rfold", "sum", "product", "min", "max", "try_fold", "try_for_each", "any", "all", "find", "position", "find_map", "next", "next_back", "nth", "nth_back"}
